@@ -107,3 +107,27 @@ Theorem C06_reachable_assembles_accepted : forall (sigT msgT : Type) (sig_len0 :
     | _ => False
     end.
 Proof. intros. eapply reachable_assembles_accepted; eauto. Qed.
+
+(* chains that move.  Pool operations interleaved with blocks being applied (headers / parameters at the heights of
+   pooled commits unchanged) and with blocks being deleted and replaced by siblings (nothing below the deleted height
+   changes; deleteBlock purges the pool from that height up, fix 5889739): the pool stays valid with respect to the
+   CURRENT chain, so whatever GetAggregateCommit assembles is accepted.  Before the fix this failed on the real code:
+   a commit for a deleted block stayed in the pool (findings/C06.json, c06:reorg:spec). *)
+Theorem C06_pool_valid_across_reorgs : forall (sigT msgT : Type) (msg_of : cert -> msgT) (vrf : key -> msgT -> sigT -> bool)
+    (sign_own : cert -> sigT) e p,
+  reachable_chain sigT msgT msg_of vrf sign_own e p -> pool_ok sigT msgT msg_of vrf e (gossiped p ++ nongossiped p).
+Proof. exact reachable_chain_ok. Qed.
+
+Theorem C06_assemble_accepts_across_reorgs : forall (sigT msgT : Type) (sig_len0 : sigT -> bool) (msg_of : cert -> msgT)
+    (fav : list key -> msgT -> sigT -> bool) (vrf : key -> msgT -> sigT -> bool) (agg : list sigT -> sigT)
+    (sign_own : cert -> sigT),
+  (forall ks ss m ks', Forall2 (fun k s => vrf k m s = true) ks ss -> ks <> [] -> Permutation ks ks' ->
+                       fav ks' m (agg ss) = true) ->
+  (forall ss, sig_len0 (agg ss) = false) ->
+  forall e p, params_wf e -> reachable_chain sigT msgT msg_of vrf sign_own e p ->
+    match get_aggregate_commit agg e (gossiped p) (nongossiped p) with
+    | GOk a => verify sig_len0 msg_of fav e a = Accept
+    | GEmpty h => h = e_mhc e
+    | _ => False
+    end.
+Proof. intros. eapply reachable_chain_assembles_accepted; eauto. Qed.
